@@ -164,7 +164,11 @@ def append_anchor(cx):
         ok = match(("vfield", call("~RaftLog::term", ANY, idx), "core::result::Result::Ok", 0), lt) is not None
         cx.check(ok, key + ":log_term", "append log_term = raft_log.term(pr.next_idx - 1)? (found %s)" % t.show_field("log_term"), t.site, value=t.show_field("log_term"))
         ents = _ents_source(cx, t, t.get("entries"))
-        bb = match(("vfield", call("~RaftLog::entries", ANY, ("field", pr, "Progress.next_idx"), V("max"), ANY), "core::result::Result::Ok", 0), ents)
+        pat_e = ("vfield", call("~RaftLog::entries", ANY, ("field", pr, "Progress.next_idx"), V("max"), ANY), "core::result::Result::Ok", 0)
+        bb = match(pat_e, ents)
+        if bb is None:
+            ents = cx.prog.inline_wrappers(ents)   # the read may sit behind a private straight-line helper
+            bb = match(pat_e, ents)
         ok = bb is not None and is_f(bb["max"], "RaftCore.max_msg_size")
         cx.check(ok, key + ":entries", "append entries = raft_log.entries(pr.next_idx, self.max_msg_size, ..)? (found %s)" % show(ents)[:160], t.site, value=show(ents)[:200])
         cx.check(is_committed(t.get("commit")), key + ":commit", "append commit = raft_log.committed (found %s)" % t.show_field("commit"), t.site, value=t.show_field("commit"))
